@@ -167,6 +167,13 @@ def stream_cases(prop, tier, seed, sched_cases=()):
             for prog in all_progs(cap, 2 if not T else 3, abort=abort):
                 for r in range(2):
                     add(cap=cap, prog=prog, rand_steps=60, rseed=rng.randrange(1 << 30), rand_cdrop=cdrop and r == 1)
+        # identity streaming is also what a client that offers gzip gets at level 0, and what a client
+        # that refuses gzip gets at any level
+        for hdr, a, level in (("gzip", ae_abs([("gzip", 1000)]), 0), ("gzip;q=0", ae_abs([("gzip", 0)]), 6),
+                              ("identity", ae_abs([("identity", 1000)]), 9), ("*", ae_abs([("*", 1000)]), 0)):
+            for cap in (1, 3, 4096):
+                for prog in ([["write", 5], ["flush", 0], ["write", 2 * cap + 1], ["drop", 0]], [["write", 0], ["drop", 0]]):
+                    add(cap=cap, prog=prog, ae=hdr, abs=a, level=level, rand_steps=80, rseed=rng.randrange(1 << 30))
         # seeded random programs of up to 6 (quick) / 40 (thorough) operations
         for _ in range(1500 * k):
             cap = rng.choice(raw_caps)
